@@ -97,8 +97,10 @@ def check(model, rep):
             return [Poly.sym('a'), Poly.sym('b'), Poly.sym('c'), Poly.sym('d')]
         if name == 'planePointsFromTransform':
             return ['T1', 'T2', 'T3']
-        if name == 'tm' and call.args and isinstance(call.args[0], ast.List):
-            return itp.ev(call.args[0])
+        if name == 'tm' and call.args:
+            v = itp.ev(call.args[0])
+            if isinstance(v, list):
+                return v
         return None
     im = PolyInterp(call_hook=hook)
     im.env[point_p] = [Poly.sym('x1'), Poly.sym('y1'), Poly.sym('z1')]
@@ -106,7 +108,9 @@ def check(model, rep):
     ok_mirror = False
     msg = ''
     try:
-        body = [s for s in mf.body()]
+        from ..engine import peval as _pe
+        mflat = _pe.flatten_function(tv.toplevel_funcs(mf.module.tree), mf.node, impure=True)      # private helpers inlined
+        body = [s for s in mflat.body if not (isinstance(s, ast.Expr) and isinstance(s.value, ast.Constant))]
         # tolerate the tuple-of-transforms assignments
         stmts = []
         for s in body:
@@ -180,8 +184,10 @@ def check(model, rep):
                     thresholds.append((n, l))
         mods = [n for n in nodes if isinstance(n, ast.BinOp) and isinstance(n.op, ast.Mod) and not isinstance(n.left, ast.Constant)]
         mods += [n for n in nodes if isinstance(n, ast.AugAssign) and isinstance(n.op, ast.Mod)]
+        # every sibling reduces angles somewhere (how many loops it spreads that over is its own business)
+        rep.ob('R18.2', fi, 'wraps angles', bool(mods) and bool(thresholds), 'no angle-modulo-modulus reduction under an abs(angle) > threshold guard found in ' + fi.qualname, shape=True)
+        n_sites += 1 if mods else 0
         for mexpr in mods:
-            n_sites += 1
             rhs = mexpr.right if isinstance(mexpr, ast.BinOp) else mexpr.value
             mval = fold_const(il.expand(rhs))
             gs = [fold_const(il.expand(t_)) for (_c, t_) in thresholds]
@@ -189,7 +195,7 @@ def check(model, rep):
             rep.ob('R18.2', fi, src(mexpr)[:70], ok,
                    'angles beyond %s are reduced modulo %s: the result differs from the input by a non-multiple of 2*pi '
                    '(the rotation changes)' % ([norm_text(il.expand(t_)) for (_c, t_) in thresholds], norm_text(il.expand(rhs))), line=mexpr.lineno)
-    rep.floor('R18.2', 'wrap sites', n_sites, 5)
+    rep.floor('R18.2', 'sibling wrap functions with a reduction', n_sites, 3)
 
     # ---------------------------------------------------------------- R18.3
     rep.rule('R18.3', 'arguments of exp / log / hat / vee have the Lie kind the primitive is defined on (known-wrong only)')
@@ -237,6 +243,20 @@ def check(model, rep):
             for k in range(6):
                 out[k] = a.TAA[k] + (diff[k] / length) * step
             return tm(out)
+        """, """
+        def closeLinearGap(a, b, step):
+            diff = (b - a)[0:6]
+            length = mr.Norm6(diff)
+            if length == 0:
+                return b
+            return tm(a.TAA + (diff / length) * step)
+        """, """
+        def closeLinearGap(a, b, step):
+            diff = b - a
+            length = mr.Norm6(diff[0:6])
+            if length == 0:
+                return b
+            return tm(a.TAA + (diff / length) * step)
         """], 'closeLinearGap does not advance by exactly delta along the unit direction to the goal')
     MID = """
         def tmInterpMidpoint(a, b):
